@@ -13,7 +13,7 @@ import sys
 import tempfile
 
 from .. import avro_c19 as am
-from .. import gen, observe, probes, workload
+from .. import gen, observe, probes, sources_c11, workload
 from ..core import subseed
 
 ID = "C11"
@@ -38,7 +38,12 @@ RULE = (
     "names x.csv|json|jsonl|avro|records.json|tar.<codec> given as plain paths (last extension decides: a <codec>'d record "
     "stream); the REAL stdin of a python subprocess (pipe and redirected regular file) x codec x container x {program did "
     "nothing / sys.stdin.buffer.peek(1) / consumed a leading marker line with sys.stdin.buffer.readline()} before "
-    "RecordReader('-') or RecordReader(): exactly the written records (stream: observe.normalise(obs) equality; avro: the C19 comparison, "
+    "RecordReader('-') or RecordReader(): exactly the written records; a PATH that names a pipe (/dev/fd/N in-process, "
+    "/dev/stdin and an os.mkfifo FIFO read by a child) x codec x container; handle turn-over histories in one process (one "
+    "handle re-used with new content; many short-lived handles) through RecordReader(fileobj=), StreamReader(fh), "
+    "AvroReader(fh), open_path_or_stream(fh,'rb'); hostile-but-legal file names x extension x {relative, absolute, behind a "
+    "scheme}: what lands on disk is the container the extension/scheme names and reads back, or the name is refused for "
+    "write and read alike (stream: observe.normalise(obs) equality; avro: the C19 comparison, "
     "floats to single precision, timestamps as instants).  Plus JSON / JSON lines / CSV chosen by extension, and junk inputs "
     "(empty, text, record repr text, random bytes, each codec around junk, each codec magic followed by junk, Avro magic "
     "followed by junk; non-stream input that contains the stream magic text at offset 0-5/7/10 instead of the header frame, "
@@ -61,10 +66,14 @@ ASSUMPTIONS = [
     "csvfile://x.csv.gz writes plain text)",
     "for rdump the exit status is not demanded (record_stream() logs the reader's error and continues): refusal = no record in "
     "the output and an error/warning on stderr or a non-zero exit",
+    "hostile file names: which file NAME is created is not demanded ('a#b.avro' / 'q?x.avro' create 'a' / 'q' today: URL "
+    "fragment / query semantics, and the codec extension is lost with it), only the container of what is created and that it "
+    "reads back under the same name; relative names with unbalanced / non-IPv6 brackets are refused with ValueError today "
+    "for write and read, which is accepted as a consistent refusal",
     "raw objects deliver full reads (as io.FileIO does); objects whose first read returns fewer bytes than the magic depth are "
     "not generated (reported to the lead as candidate finding sniff-single-peek-short-read)",
 ]
-SHARDS = {"quick": 8, "thorough": 16}
+SHARDS = {"quick": 16, "thorough": 16}
 BUDGET_S = {"quick": 200, "thorough": 1200}
 
 ANCHORS = [
@@ -161,7 +170,7 @@ def generate(ctx):
                 if ctx.mine(idx):
                     yield {"k": "junk", "kind": kind, "via": via, "s": subseed("c11", ctx.seed, "junk", kind, via, rep)}
                 idx += 1
-    for rep in range(ctx.scale(1, 3)):
+    for rep in range(ctx.scale(1, 2)):
         for codec in CODECS:
             for container in CONTAINERS:
                 for nw in (2, 3):
@@ -182,6 +191,26 @@ def generate(ctx):
                         if ctx.mine(idx):
                             yield {"k": "stdin-touch", "codec": codec, "container": container, "touch": touch, "stdin": how,
                                    "s": subseed("c11", ctx.seed, "stdin-touch", container, touch, how, rep)}
+                        idx += 1
+        for codec in CODECS:
+            for container in CONTAINERS:
+                for form in sources_c11.PIPE_FORMS:
+                    if ctx.mine(idx):
+                        yield {"k": "pipe-path", "codec": codec, "container": container, "form": form,
+                               "s": subseed("c11", ctx.seed, "pipe-path", container, form, rep)}
+                    idx += 1
+        for container in CONTAINERS:
+            for history in ("reused-handle", "short-lived"):
+                for k in range(2):
+                    if ctx.mine(idx):
+                        yield {"k": "turnover", "container": container, "history": history, "s": subseed("c11", ctx.seed, "turnover", container, history, rep, k)}
+                    idx += 1
+        if rep == 0:
+            for stem in sources_c11.NAME_STEMS:
+                for ext in sources_c11.NAME_EXTS:
+                    for form in sources_c11.NAME_FORMS:
+                        if ctx.mine(idx):
+                            yield {"k": "names", "stem": stem, "ext": ext, "form": form, "s": subseed("c11", ctx.seed, "names", stem, ext, form)}
                         idx += 1
         for inner in COMPOUND_INNER:
             for codec in CODECS[1:]:
@@ -376,6 +405,12 @@ def execute(ctx, case):
         return execute_compound(ctx, case)
     if case["k"] == "stdin-touch":
         return execute_stdin_touch(ctx, case)
+    if case["k"] == "pipe-path":
+        return sources_c11.execute_pipe_path(ctx, case)
+    if case["k"] == "turnover":
+        return sources_c11.execute_turnover(ctx, case)
+    if case["k"] == "names":
+        return sources_c11.execute_names(ctx, case)
     return execute_text_ext(ctx, case)
 
 
@@ -1163,12 +1198,16 @@ def finish(ctx):
         ctx.note("interleave_cells_expected", len(CODECS) * len(CONTAINERS) * 4)
         ctx.note("overwrite_cells_expected", len(CODECS) * len(CONTAINERS) * 2)
         ctx.note("compound_cells_expected", len(COMPOUND_INNER) * (len(CODECS) - 1))
+        ctx.note("pipe_path_cells_expected", len(CODECS) * len(CONTAINERS) * len(sources_c11.PIPE_FORMS))
+        ctx.note("names_cases_expected", len(sources_c11.NAME_STEMS) * len(sources_c11.NAME_EXTS) * len(sources_c11.NAME_FORMS))
         ctx.note("stdin_touch_cells_expected", len(CODECS) * len(CONTAINERS) * len(STDIN_TOUCH) * 2)
         ctx.note("cli_tools", {k: (v or "absent") for k, v in ctx.state["clis"].items()})
         ctx.note("rdump_argv0", ctx.state["rdump"])
     if ctx.evaluations:
         for q in ANCHORS:
             ctx.require(ctx.reach.get(q, 0) > 0, "anchor %s was never entered" % q)
+        ran_pp = sum(v for k, v in ctx.events.items() if k.startswith("pipe_path:"))
+        ctx.require(ran_pp == ctx.state.get("pipe_path_cases", 0), "a pipe-named-by-path case did not run to completion")
         ran = sum(v for k, v in ctx.events.items() if k.startswith("stdin_touch:"))
         ctx.require(ran == ctx.state.get("stdin_touch_cases", 0), "a real-stdin subprocess case did not run to completion")
         if ctx.nshards == 1:
